@@ -329,6 +329,9 @@ pub enum Tail {
     Staircase,
     Invertible,
     Singular,
+    /// lower bidiagonal with the full diagonal but some sub-diagonal ones missing: invertible,
+    /// *almost* the dual-diagonal staircase (seeded change C20-r7-2 takes it for one)
+    GappedStaircase,
 }
 
 /// Random parity-check matrix [H0 | H1] with k information columns and r checks.
@@ -338,6 +341,20 @@ pub fn random_code(rng: &mut Stream, k: usize, r: usize, tail: Tail, min_row_wei
     let h1 = match tail {
         Tail::Staircase => staircase(r),
         Tail::Invertible => random_invertible(rng, r),
+        Tail::GappedStaircase => {
+            let mut m = staircase(r);
+            let mut gaps = 0;
+            for i in 1..r {
+                if rng.chance(1, 3) {
+                    m.a[i][i - 1] = 0;
+                    gaps += 1;
+                }
+            }
+            if gaps == 0 && r > 1 {
+                m.a[r - 1][r - 2] = 0;
+            }
+            m
+        }
         Tail::Singular => {
             let mut m = random_invertible(rng, r);
             // make it singular: duplicate a row (or zero it when r == 1)
